@@ -4,11 +4,25 @@ package kv
 
 // C15 — the kv store as a user of hash.ConsistentHash: NewStore builds the ring with
 // AddWithWeight(*redis.Redis, conf.Weight) (repr = address) and getRedis dispatches with
-// cs.dispatcher.Get(key). Same protocol as the cache harness (cfg user=kv).
+// cs.dispatcher.Get(key). Same protocol as the cache harness (cfg user=kv):
+//   build <conf>    =>  g=<addr of the node each probe key is dispatched to | ->
+//   buildx <conf|-> =>  FATAL | g=…      the constructor in a child process (it terminates the process without nodes)
+//   call <Method> <s,s,…>  =>  ret=<nil|nonode|err> c=<addr>/<cmd>/<those arguments that are strings of the call>;…
+// `call` invokes the REAL method of the Store (all 132 of them, through reflection): the strings of the op fill the
+// method's string parameters in order (a variadic string parameter takes the rest), every other parameter gets a
+// fixed value; every address is served by an intercepting client (core/stores/redis/zz_verif_c15_hook.go) that
+// records the commands instead of sending them. Which string is the KEY of a method is the model's business.
 
 import (
+	"context"
+	"errors"
 	"fmt"
+	"os"
+	"os/exec"
+	"reflect"
+	"sort"
 	"strings"
+	"sync"
 	"testing"
 
 	"github.com/zeromicro/go-zero/core/stores/cache"
@@ -24,10 +38,93 @@ var c15Addrs = []string{
 
 var c15Weights = []int{100, 100, 100, 50, 1, 10, 99, 0, -5, 101, 150, 1000, 20, 30}
 
+// c15ConfGen: see the cache harness (classes random / duplicate / drained / single / fatal)
+func c15ConfGen(r *verifh.Rng, fatal bool) []string {
+	if fatal {
+		n := r.Range(0, 3)
+		conf := make([]string, 0, n)
+		for j := 0; j < n; j++ {
+			conf = append(conf, fmt.Sprintf("%s/%d", c15Addrs[r.Intn(len(c15Addrs))], r.Pick(0, 0, -5, -100, -9223372036854775808)))
+		}
+		return conf
+	}
+	n := r.Range(1, 6)
+	start := r.Intn(len(c15Addrs))
+	conf := make([]string, 0, n)
+	total := 0
+	drained := n >= 2 && r.Chance(1, 3)
+	keep := r.Intn(n)
+	keep2 := -1
+	if drained && n >= 3 && r.Chance(1, 3) {
+		keep2 = r.Intn(n)
+	}
+	for j := 0; j < n; j++ {
+		a := c15Addrs[(start+j)%len(c15Addrs)]
+		if r.Chance(1, 4) {
+			a = c15Addrs[r.Intn(len(c15Addrs))]
+		}
+		w := c15Weights[r.Intn(len(c15Weights))]
+		if drained {
+			if j == keep || j == keep2 {
+				w = r.Pick(100, 50, 1, 150)
+			} else {
+				w = r.Pick(0, 0, -5)
+			}
+		}
+		if w > 0 {
+			total += w
+		}
+		conf = append(conf, fmt.Sprintf("%s/%d", a, w))
+	}
+	if !drained && r.Chance(1, 3) {
+		// an address configured twice: the later entry replaces the earlier one, whatever its weight
+		d := conf[r.Intn(len(conf))]
+		conf = append(conf, fmt.Sprintf("%s/%d", d[:strings.LastIndexByte(d, '/')], r.Pick(0, -5, 1, 100, 40)))
+	}
+	if total <= 0 {
+		conf[0] = conf[0][:strings.LastIndexByte(conf[0], '/')] + "/100"
+	}
+	return conf
+}
+
+var (
+	c15StringT = reflect.TypeOf("")
+	c15CtxT    = reflect.TypeOf((*context.Context)(nil)).Elem()
+)
+
+// c15Methods: every method of the Store interface with the number of its plain string parameters and whether its
+// variadic parameter is a string (sorted by name: reflect orders interface methods that way)
+type c15Method struct {
+	name     string
+	nstr     int
+	varisStr bool
+}
+
+func c15Methods() []c15Method {
+	t := reflect.TypeOf((*Store)(nil)).Elem()
+	var ms []c15Method
+	for i := 0; i < t.NumMethod(); i++ {
+		m := t.Method(i)
+		cm := c15Method{name: m.Name}
+		for j := 0; j < m.Type.NumIn(); j++ {
+			in := m.Type.In(j)
+			if m.Type.IsVariadic() && j == m.Type.NumIn()-1 {
+				cm.varisStr = in.Elem() == c15StringT
+			} else if in == c15StringT {
+				cm.nstr++
+			}
+		}
+		ms = append(ms, cm)
+	}
+	return ms
+}
+
 func c15KvGen(r *verifh.Rng) []verifh.Section {
 	r = r.Fork()
 	r.Uint64()
 	r.Uint64()
+	methods := c15Methods()
+	next := r.Intn(len(methods))
 	var secs []verifh.Section
 	nsec := verifh.Scale(10, 120)
 	for i := 0; i < nsec; i++ {
@@ -38,35 +135,48 @@ func c15KvGen(r *verifh.Rng) []verifh.Section {
 			if r.Bool() {
 				probes = append(probes, fmt.Sprintf("s:session:%d", base+j))
 			} else {
-				probes = append(probes, fmt.Sprintf("s:%d", r.Intn(1000000)))
+				probes = append(probes, fmt.Sprintf("s:%d", 1000000+j*1000003+r.Intn(1000)))
 			}
+		}
+		key := func() string { return strings.TrimPrefix(probes[r.Intn(len(probes))], "s:") }
+		calls := func(n int) []string {
+			var ops []string
+			for j := 0; j < n; j++ {
+				// round robin over all methods: every method of the interface is called in every quick run
+				m := methods[next%len(methods)]
+				next++
+				args := make([]string, 0, 4)
+				for len(args) < m.nstr {
+					k := key()
+					dup := false
+					for _, a := range args {
+						dup = dup || a == k
+					}
+					if !dup {
+						args = append(args, k)
+					}
+				}
+				if m.varisStr {
+					for x := r.Range(0, 3); x > 0; x-- {
+						args = append(args, key())
+					}
+				}
+				if len(args) == 0 {
+					continue
+				}
+				name := m.name
+				if strings.HasSuffix(name, "Ctx") && r.Chance(1, 4) {
+					name += "+cancel" // a context that is already cancelled: the key is dispatched all the same
+				}
+				ops = append(ops, "call "+name+" "+strings.Join(args, ","))
+			}
+			return ops
 		}
 		var ops []string
 		for k := r.Range(2, 5); k > 0; k-- {
-			n := r.Range(1, 6)
-			start := r.Intn(len(c15Addrs))
-			conf := make([]string, 0, n)
-			total := 0
-			for j := 0; j < n; j++ {
-				a := c15Addrs[(start+j)%len(c15Addrs)]
-				if r.Chance(1, 4) {
-					a = c15Addrs[r.Intn(len(c15Addrs))]
-				}
-				w := c15Weights[r.Intn(len(c15Weights))]
-				if w > 0 {
-					total += w
-				}
-				conf = append(conf, fmt.Sprintf("%s/%d", a, w))
-			}
-			if r.Chance(1, 3) {
-				// an address configured twice: the later entry replaces the earlier one, whatever its weight
-				d := conf[r.Intn(len(conf))]
-				conf = append(conf, fmt.Sprintf("%s/%d", d[:strings.LastIndexByte(d, '/')], r.Pick(0, -5, 1, 100, 40)))
-			}
-			if total <= 0 {
-				conf[0] = conf[0][:strings.IndexByte(conf[0], '/')] + "/100"
-			}
+			conf := c15ConfGen(r, false)
 			ops = append(ops, "build "+strings.Join(conf, ","))
+			ops = append(ops, calls(r.Range(4, 8))...)
 			if len(conf) >= 2 && r.Chance(1, 2) {
 				// a SECOND instance from the same entries in another order (rotated or reversed): with distinct
 				// addresses the membership is the same and so must be the dispatch of every key
@@ -80,11 +190,202 @@ func c15KvGen(r *verifh.Rng) []verifh.Section {
 					}
 				}
 				ops = append(ops, "build "+strings.Join(perm, ","))
+				ops = append(ops, calls(r.Range(0, 3))...)
+			}
+		}
+		if i%3 == 1 {
+			f := c15ConfGen(r, true)
+			if len(f) == 0 {
+				ops = append(ops, "buildx -")
+			} else {
+				ops = append(ops, "buildx "+strings.Join(f, ","))
+			}
+			if r.Chance(1, 2) {
+				ops = append(ops, "buildx "+strings.Join(c15ConfGen(r, false), ","))
 			}
 		}
 		secs = append(secs, verifh.Section{Cfg: "user=kv probes=" + strings.Join(probes, ","), Ops: ops})
 	}
 	return secs
+}
+
+func c15Conf(tok string) (KvConf, bool) {
+	var c KvConf
+	if tok == "-" {
+		return c, true
+	}
+	for _, e := range strings.Split(tok, ",") {
+		i := strings.LastIndexByte(e, '/')
+		if i < 0 {
+			return nil, false
+		}
+		redis.VerifC15Intercept(e[:i])
+		c = append(c, cache.NodeConf{
+			RedisConf: redis.RedisConf{Host: e[:i], Type: redis.NodeType, NonBlock: true},
+			Weight:    verifh.Atoi(e[i+1:]),
+		})
+	}
+	return c, true
+}
+
+// c15Dispatch: what every method of clusterStore does with its key
+func c15Dispatch(cs clusterStore, keys []string) string {
+	out := make([]string, len(keys))
+	for i, key := range keys {
+		node, err := cs.getRedis(key)
+		if err != nil {
+			out[i] = "-"
+		} else {
+			out[i] = node.Addr
+		}
+	}
+	return "g=" + strings.Join(out, ",")
+}
+
+type c15Recorder struct {
+	mu   sync.Mutex
+	keys map[string]bool
+	recs []string
+}
+
+func (r *c15Recorder) rec(addr string, args []any) {
+	cmd := "?"
+	var ks []string
+	for i, a := range args {
+		if i == 0 {
+			cmd = strings.ToLower(fmt.Sprint(a))
+			continue
+		}
+		if s, ok := a.(string); ok && r.keys[s] {
+			ks = append(ks, s)
+		}
+	}
+	r.mu.Lock()
+	r.recs = append(r.recs, addr+"/"+cmd+"/"+strings.Join(ks, "|"))
+	r.mu.Unlock()
+}
+
+func (r *c15Recorder) String() string {
+	r.mu.Lock()
+	defer r.mu.Unlock()
+	if len(r.recs) == 0 {
+		return "c=-"
+	}
+	sort.Strings(r.recs)
+	return "c=" + strings.Join(r.recs, ";")
+}
+
+// c15Call invokes method `name` of the store: strs fill the string parameters in order
+func c15Call(s Store, name string, strs []string) (ret string) {
+	defer func() {
+		if p := recover(); p != nil {
+			ret = "ret=PANIC"
+		}
+	}()
+	ctx := context.Background()
+	if i := strings.IndexByte(name, '+'); i >= 0 {
+		if name[i:] == "+cancel" {
+			c, cancel := context.WithCancel(ctx)
+			cancel()
+			ctx = c
+		}
+		name = name[:i]
+	}
+	m := reflect.ValueOf(s).MethodByName(name)
+	if !m.IsValid() {
+		return "bad-method"
+	}
+	t := m.Type()
+	var in []reflect.Value
+	next := 0
+	str := func() (string, bool) {
+		if next >= len(strs) {
+			return "", false
+		}
+		next++
+		return strs[next-1], true
+	}
+	for j := 0; j < t.NumIn(); j++ {
+		pt := t.In(j)
+		if t.IsVariadic() && j == t.NumIn()-1 {
+			switch {
+			case pt.Elem() == c15StringT:
+				for {
+					x, ok := str()
+					if !ok {
+						break
+					}
+					in = append(in, reflect.ValueOf(x))
+				}
+			case pt.Elem() == reflect.TypeOf(redis.Pair{}):
+				in = append(in, reflect.ValueOf(redis.Pair{Key: "member", Score: 1}))
+			default:
+				in = append(in, reflect.ValueOf("value"))
+			}
+			continue
+		}
+		switch {
+		case pt == c15CtxT:
+			in = append(in, reflect.ValueOf(ctx))
+		case pt == c15StringT:
+			x, ok := str()
+			if !ok {
+				return "bad-args"
+			}
+			in = append(in, reflect.ValueOf(x))
+		case pt.Kind() == reflect.Map:
+			in = append(in, reflect.ValueOf(map[string]string{"field": "value"}))
+		case pt.Kind() == reflect.Interface:
+			in = append(in, reflect.ValueOf("value").Convert(reflect.TypeOf("")))
+		case pt.Kind() == reflect.Float64:
+			in = append(in, reflect.ValueOf(1.5))
+		case pt.Kind() == reflect.Int, pt.Kind() == reflect.Int64, pt.Kind() == reflect.Uint64:
+			in = append(in, reflect.ValueOf(2).Convert(pt))
+		default:
+			return "bad-param-" + pt.String()
+		}
+	}
+	if next != len(strs) {
+		return "bad-args"
+	}
+	out := m.Call(in)
+	if len(out) > 0 {
+		if err, ok := out[len(out)-1].Interface().(error); ok && err != nil {
+			if errors.Is(err, ErrNoRedisNode) {
+				return "ret=nonode"
+			}
+			return "ret=err"
+		}
+	}
+	return "ret=nil"
+}
+
+func c15Child(conf string, keys []string) string {
+	cmd := exec.Command(os.Args[0], "-test.run", "^TestVerifC15KvChild$", "-test.count=1")
+	cmd.Env = append(os.Environ(), "VERIF_C15_CHILD=1", "VERIF_C15_CONF="+conf, "VERIF_C15_KEYS="+strings.Join(keys, ","),
+		"VERIF_TRACE_OUT=", "VERIF_OPS_IN=")
+	out, err := cmd.CombinedOutput()
+	for _, l := range strings.Split(string(out), "\n") {
+		if strings.HasPrefix(l, "C15CHILD ") {
+			return strings.TrimPrefix(l, "C15CHILD ")
+		}
+	}
+	if err != nil && strings.Contains(string(out), "no cache nodes") {
+		return "FATAL"
+	}
+	return "CHILD-FAILED"
+}
+
+// TestVerifC15KvChild is the child side of `buildx` (does nothing unless asked by the parent)
+func TestVerifC15KvChild(t *testing.T) {
+	if os.Getenv("VERIF_C15_CHILD") == "" {
+		t.Skip("child of TestVerifC15Kv only")
+	}
+	c, ok := c15Conf(os.Getenv("VERIF_C15_CONF"))
+	if !ok {
+		t.Fatal("bad conf")
+	}
+	fmt.Println("C15CHILD " + c15Dispatch(NewStore(c).(clusterStore), strings.Split(os.Getenv("VERIF_C15_KEYS"), ",")))
 }
 
 func TestVerifC15Kv(t *testing.T) {
@@ -94,33 +395,34 @@ func TestVerifC15Kv(t *testing.T) {
 		for _, tok := range strings.Split(cfg.Str("probes", ""), ",") {
 			keys = append(keys, strings.TrimPrefix(tok, "s:"))
 		}
+		var inst Store
 		step := func(op []string) string {
-			if len(op) != 2 || op[0] != "build" {
-				return "bad-op"
-			}
-			var c KvConf
-			for _, e := range strings.Split(op[1], ",") {
-				i := strings.LastIndexByte(e, '/')
-				if i < 0 {
+			switch {
+			case len(op) == 2 && op[0] == "build":
+				c, ok := c15Conf(op[1])
+				if !ok {
 					return "bad-op"
 				}
-				c = append(c, cache.NodeConf{
-					RedisConf: redis.RedisConf{Host: e[:i], Type: redis.NodeType, NonBlock: true},
-					Weight:    verifh.Atoi(e[i+1:]),
-				})
-			}
-			cs := NewStore(c).(clusterStore)
-			out := make([]string, len(keys))
-			for i, key := range keys {
-				// what every method of clusterStore does with its key
-				node, err := cs.getRedis(key)
-				if err != nil {
-					out[i] = "-"
-				} else {
-					out[i] = node.Addr
+				inst = NewStore(c)
+				return c15Dispatch(inst.(clusterStore), keys)
+			case len(op) == 2 && op[0] == "buildx":
+				inst = nil
+				return c15Child(op[1], keys)
+			case len(op) == 3 && op[0] == "call":
+				if inst == nil {
+					return "no-instance"
 				}
+				strs := strings.Split(op[2], ",")
+				rec := &c15Recorder{keys: map[string]bool{}}
+				for _, k := range strs {
+					rec.keys[k] = true
+				}
+				redis.VerifC15Recorder(rec.rec)
+				ret := c15Call(inst, op[1], strs)
+				redis.VerifC15Recorder(nil)
+				return ret + " " + rec.String()
 			}
-			return "g=" + strings.Join(out, ",")
+			return "bad-op"
 		}
 		return step, nil
 	})
